@@ -23,8 +23,8 @@ ARGS = {
 }
 
 POOLS = {
-    "quick": [dict(classes=["P", "Q", "R(P)", "N"], args=["none", "p1", "k1", "boom"])],
-    "thorough": [dict(classes=["P", "Q", "R(P)", "N", "R2(R)"], args=["none", "p1", "p2", "k1", "boom"])],
+    "quick": [dict(classes=["P", "Q", "R(P)", "N", "M"], args=["none", "p1", "k1", "boom"])],
+    "thorough": [dict(classes=["P", "Q", "R(P)", "N", "M", "R2(R)"], args=["none", "p1", "p2", "k1", "boom"])],
 }
 
 
@@ -45,7 +45,7 @@ class World:
         self.total_inits = 0
         world = self
 
-        def mk(name, bases=(), nested=None):
+        def mk(name, bases=(), nested=None, swallow=None):
             def __init__(self, *a, **k):
                 world.total_inits += 1
                 self.init_count = getattr(self, "init_count", 0) + 1
@@ -55,6 +55,12 @@ class World:
                     raise InitBoom()
                 if nested is not None:
                     self.inner = world.cls[world.names.index(nested)]()
+                if swallow is not None:
+                    # a nested construction that fails, and whose failure this __init__ survives
+                    try:
+                        world.cls[world.names.index(swallow)]("boom")
+                    except InitBoom:
+                        pass
             return S.TrueSingleton(name, bases, {"__init__": __init__})
 
         self.names = []
@@ -70,6 +76,8 @@ class World:
                 c = type(self.cls[self.names.index("R(P)")])("R2", (self.cls[self.names.index("R(P)")],), {})
             elif n == "N":
                 c = mk("N", nested="Q")
+            elif n == "M":
+                c = mk("M", swallow="Q")
             self.names.append(n)
             self.cls.append(c)
         self.model = [None] * len(self.cls)      # instance or None
@@ -147,6 +155,7 @@ class Sys:
             had = w.model[c]
             qi = w.names.index("Q") if "Q" in w.names else None
             nested = w.names[c] == "N"
+            swallow = w.names[c] == "M"
             before = w.total_inits
             try:
                 o = w.cls[c](*a[0], **a[1])
@@ -177,6 +186,8 @@ class Sys:
                 expect_runs = 1
                 if nested and w.model[qi] is None:
                     expect_runs = 2
+                if swallow and w.model[qi] is None:
+                    expect_runs = 2      # Q's __init__ ran (and failed); Q must still have no instance
                 if ran != expect_runs or getattr(o, "init_count", None) != 1:
                     w.step_bad.append("init-count")
                 elif o.a != a[0] or o.k != a[1]:
